@@ -871,6 +871,35 @@ def run(ctx) -> None:
     ctx.check(not st12, 'V12', 'ConvertUnits/does-not-store-the-value', f'{cu.module.rel}:{st12[0].lineno if st12 else cu.node.lineno}',
               f'`{norm(st12[0])[:80] if st12 else ""}` stores an unvalidated value before the range test; the reader then returns early on '
               f'"new value == current value" and the value is never range-checked', fact='ConvertUnits returns text only')
+    ctx.rule('V13', 'an entry that a read_parameters adds to the input map (a deprecated name mapped onto the current one) is added before the '
+                    'reader loop runs: added afterwards it is neither range-checked nor used, and the stated value is silently dropped')
+    n13 = 0
+    for f in ctx.repo.all_functions():
+        if f.name != 'read_parameters' or f.cls is None:
+            continue
+        loops = [lp for lp in ast.walk(f.node) if isinstance(lp, (ast.For, ast.While)) and
+                 any(isinstance(c, ast.Call) and (dotted_name(c.func) or '').split('.')[-1] == 'ReadParameter' for c in ast.walk(lp))]
+        if not loops:
+            continue
+        first_loop = min(lp.lineno for lp in loops)
+
+        def _adds(node):
+            return [st for st in ast.walk(node) if isinstance(st, ast.Assign) and any(
+                isinstance(t, ast.Subscript) and norm(t.value).split('.')[-1] == 'InputParameters' for t in st.targets)]
+        sites = [(st.lineno, st) for st in _adds(f.node)]
+        for c in ast.walk(f.node):
+            if isinstance(c, ast.Call) and isinstance(c.func, ast.Attribute) and isinstance(c.func.value, ast.Name) and c.func.value.id == 'self':
+                m = ctx.repo.resolve_method(f.cls, c.func.attr)
+                if m is not None and m is not f and m.name != 'read_parameters' and _adds(m.node):
+                    sites.append((c.lineno, c))
+        for ln, st in sites:
+            n13 += 1
+            ctx.check(ln < first_loop, 'V13', f'{f.qualname}/input-map-entry-added-before-the-reader-loop', f'{f.module.rel}:{ln}',
+                      f'`{norm(st)[:90]}` adds an entry to the input map after the reader loop of {f.qualname} (line {first_loop}) has run: the value '
+                      f'given under the mapped name is never validated and never stored - an out-of-range figure is accepted and every figure '
+                      f'is silently replaced by the default', fact='before the reader loop')
+    if n13 == 0:
+        ctx.ok('V13', 'read_parameters/no-input-map-additions', 'src/', 'no read_parameters adds entries to the input map')
     ctx.undecided('pint raising inside ConvertUnits for unit-suffixed inputs (see C06)',
                   'list-valued parameters (the property is about scalars): the listParameter arm warns and keeps')
     ctx.assume('the entry points reach validation only through the read_parameters methods resolved here')
